@@ -42,6 +42,7 @@ func runC03(c *Ctx) {
 	r.Assume("crypto/sha256, math/big (Bytes() is minimal-length big-endian; SetBytes/Lsh/Rsh/Or/And as documented)")
 	r.NotDec("the arithmetic identity of the big-integer split for entropies without leading zero bytes (pinned by the 48 vectors); SHA-256")
 
+	pureScan(c, "C03.pure.no-package-state", c.P.Func("pkg/bip39", "EntropyToMnemonic"), c.P.Func("pkg/bip39", "MnemonicToEntropy"), c.P.Func("pkg/bip39/internal/wordlists", "English"), c.P.Func("pkg/bip39/internal/wordlists", "Japanese"), c.P.Func("pkg/bip39/internal/wordlists", "wordList.Index"), c.P.Func("pkg/bip39/internal/wordlists", "wordList.Contains"), c.P.Func("pkg/bip39/internal/wordlists", "wordList.Word"))
 	c03Sizes(c)
 	c03Decode(c)
 	c03FixedWidth(c)
